@@ -306,6 +306,31 @@ def note_panics(scenarios, outs):
                                "panic": str(pv)[:2000]})
 
 
+def note_crash(out_path, scenarios, rc, gout):
+    """The harness process itself died while scenario k ran (a panic in a goroutine that is neither a request handler nor a
+    command - a probe loop, a drain helper - or a fatal runtime error such as 'concurrent map writes', 'unlock of unlocked
+    mutex', 'all goroutines are asleep'): on the real proxy that ends the process, every request in flight and every later one
+    goes unanswered.  The scenario is the failing input.  Returns the record or None."""
+    cur = out_path + ".cur"
+    k = None
+    if os.path.exists(cur):
+        try:
+            k = int(open(cur).read().strip())
+        except ValueError:
+            k = None
+        os.remove(cur)
+    if rc == 0 or k is None:
+        return None
+    m = re.search(r"^(panic: .*|fatal error: .*)$", gout, re.M)
+    if not m or "test timed out" in m.group(1):
+        return None
+    at = gout.find(m.group(0))
+    rec = {"scenario": scenarios[k] if k < len(scenarios) else None, "index": k, "process_crash": True,
+           "panic": m.group(1)[:500], "stack": gout[at:at + 4000]}
+    PANICS.append(rec)
+    return rec
+
+
 class Result:
     def __init__(self, prop, tier, seed):
         self.prop = prop
@@ -342,7 +367,9 @@ class Result:
                 "property": self.prop, "seed": self.seed, "tier": self.tier,
                 "what": "this scenario does not end on the real code (virtual clock; abandoned by the real-time watchdog): "
                         + HANG_PROPS[self.prop], "hang": json.loads(json.dumps(HANGS[0], default=lambda b: b.decode("latin1")))})
-        if PANICS and not self.violations:
+        if PANICS and not any(sfx == "" for _, sfx in self.violations):
+            # no concrete failing input so far: the scenario during which the proxy panicked is one
+            self.violations = []
             self.violation("panic", {"property": self.prop, "seed": self.seed, "tier": self.tier,
                                      "what": "the proxy panicked while serving a request / executing a command of this scenario "
                                              "(the client gets no answer; a panic in a command handler ends the process)",
